@@ -88,6 +88,48 @@ pub struct Fl2 { #[serde(flatten)] i: P2, o: Option<u8>, #[serde(flatten)] j: Wi
 #[derive(Serialize, Deserialize, Debug, Clone)] pub struct FlK { a: u8, #[serde(flatten)] i: InnerUS }
 #[derive(Serialize, Deserialize, Debug, Clone)] pub struct FlMK { a: u8, #[serde(flatten)] m: BTreeMap<String, US> }
 #[derive(Serialize, Deserialize, Debug, Clone)] pub struct FlMC { a: u8, #[serde(flatten)] m: BTreeMap<String, char> }
+// a hand-written Deserialize in the style of the serde documentation ("Manually implementing Deserialize for a struct"): the
+// field identifier visitor goes through deserialize_identifier and implements visit_str only
+#[derive(Serialize, Debug, Clone)] pub struct HandS { secs: u64, nanos: u32 }
+impl<'de> Deserialize<'de> for HandS {
+    fn deserialize<D: serde::Deserializer<'de>>(d: D) -> Result<Self, D::Error> {
+        enum Field { Secs, Nanos, Other }
+        impl<'de> Deserialize<'de> for Field {
+            fn deserialize<D: serde::Deserializer<'de>>(d: D) -> Result<Field, D::Error> {
+                struct FV;
+                impl<'de> Visitor<'de> for FV {
+                    type Value = Field;
+                    fn expecting(&self, f: &mut fmt::Formatter) -> fmt::Result { f.write_str("`secs` or `nanos`") }
+                    fn visit_str<E: de::Error>(self, v: &str) -> Result<Field, E> {
+                        Ok(match v { "secs" => Field::Secs, "nanos" => Field::Nanos, _ => Field::Other })
+                    }
+                }
+                d.deserialize_identifier(FV)
+            }
+        }
+        struct SV;
+        impl<'de> Visitor<'de> for SV {
+            type Value = HandS;
+            fn expecting(&self, f: &mut fmt::Formatter) -> fmt::Result { f.write_str("struct HandS") }
+            fn visit_map<A: MapAccess<'de>>(self, mut m: A) -> Result<HandS, A::Error> {
+                let (mut secs, mut nanos) = (None, None);
+                while let Some(k) = m.next_key()? {
+                    match k {
+                        Field::Secs => { if secs.is_some() { return Err(de::Error::duplicate_field("secs")) } secs = Some(m.next_value()?) }
+                        Field::Nanos => { if nanos.is_some() { return Err(de::Error::duplicate_field("nanos")) } nanos = Some(m.next_value()?) }
+                        Field::Other => { let _: IgnoredAny = m.next_value()?; }
+                    }
+                }
+                Ok(HandS { secs: secs.ok_or_else(|| de::Error::missing_field("secs"))?, nanos: nanos.ok_or_else(|| de::Error::missing_field("nanos"))? })
+            }
+        }
+        d.deserialize_struct("HandS", &["secs", "nanos"], SV)
+    }
+}
+// maps keyed by an enum of unit variants, plain and flattened
+#[derive(Serialize, Deserialize, Debug, Clone, PartialEq, Eq, PartialOrd, Ord)] pub enum ExtK { A, B, C }
+#[derive(Serialize, Deserialize, Debug, Clone)] pub struct FlEK { a: u8, #[serde(flatten)] m: BTreeMap<ExtK, u8> }
+#[derive(Serialize, Deserialize, Debug, Clone)] pub struct MapEK { m: BTreeMap<ExtK, i8> }
 // skip_serializing_if: the derived Serialize announces only the fields it writes and calls skip_field for the others
 #[derive(Serialize, Deserialize, Debug, Clone)]
 pub struct SkipS { a: u8, #[serde(skip_serializing_if = "Option::is_none")] b_s: Option<u8>, c: Option<String>,
@@ -175,6 +217,27 @@ impl<T: Serialize> Serialize for IterSeq<T> {
 }
 impl<'de, T: Deserialize<'de>> Deserialize<'de> for IterSeq<T> {
     fn deserialize<D: serde::Deserializer<'de>>(d: D) -> Result<Self, D::Error> { Vec::<T>::deserialize(d).map(IterSeq) }
+}
+/// Serializer::collect_seq over an iterator whose size hint is inexact (upper bound one above what it yields): serde's default
+/// collect_seq then calls serialize_seq(None)
+#[derive(Debug, Clone)] pub struct CollSeq<T>(Vec<T>);
+impl<T: Serialize> Serialize for CollSeq<T> {
+    fn serialize<S: serde::Serializer>(&self, s: S) -> Result<S::Ok, S::Error> {
+        s.collect_seq(self.0.iter().map(Some).chain(std::iter::once(None)).flatten())
+    }
+}
+impl<'de, T: Deserialize<'de>> Deserialize<'de> for CollSeq<T> {
+    fn deserialize<D: serde::Deserializer<'de>>(d: D) -> Result<Self, D::Error> { Vec::<T>::deserialize(d).map(CollSeq) }
+}
+/// Serializer::collect_map over an iterator with an inexact size hint
+#[derive(Debug, Clone)] pub struct CollMap<K, V>(BTreeMap<K, V>);
+impl<K: Serialize, V: Serialize> Serialize for CollMap<K, V> {
+    fn serialize<S: serde::Serializer>(&self, s: S) -> Result<S::Ok, S::Error> {
+        s.collect_map(self.0.iter().map(Some).chain(std::iter::once(None)).flatten())
+    }
+}
+impl<'de, K: Deserialize<'de> + Ord, V: Deserialize<'de>> Deserialize<'de> for CollMap<K, V> {
+    fn deserialize<D: serde::Deserializer<'de>>(d: D) -> Result<Self, D::Error> { BTreeMap::<K, V>::deserialize(d).map(CollMap) }
 }
 /// serialize_map(None)
 #[derive(Debug, Clone)] pub struct IterMap<K, V>(BTreeMap<K, V>);
@@ -302,6 +365,13 @@ canon_struct!(InnerUS { k });
 canon_struct!(InnerE { e });
 canon_struct!(Fl { a, i, z });
 canon_struct!(SkipS { a, b_s, c, d_s, e });
+canon_struct!(HandS { secs, nanos });
+canon_struct!(FlEK { a, m });
+canon_struct!(MapEK { m });
+impl Canon for ExtK {
+    fn parse(p: &mut P) -> Self { let r = match vopen(p) { 0 => ExtK::A, 1 => ExtK::B, _ => ExtK::C }; punit(p); p.eat(b')'); r }
+    fn show(&self) -> String { vs(match self { ExtK::A => 0, ExtK::B => 1, ExtK::C => 2 }, "()".into()) }
+}
 impl Canon for SkipE {
     fn parse(p: &mut P) -> Self {
         let r = match vopen(p) { 0 => { punit(p); SkipE::A } _ => { let (x, y_s, z_s) = Canon::parse(p); SkipE::D { x, y_s, z_s } } };
@@ -371,6 +441,8 @@ impl Canon for &'static str {
     fn show(&self) -> String { hb(self.as_bytes()) }
 }
 impl Canon for Disp { fn parse(p: &mut P) -> Self { Disp(Canon::parse(p)) } fn show(&self) -> String { self.0.show() } }
+impl<T: Canon> Canon for CollSeq<T> { fn parse(p: &mut P) -> Self { CollSeq(Canon::parse(p)) } fn show(&self) -> String { self.0.show() } }
+impl<K: Canon + Ord, V: Canon> Canon for CollMap<K, V> { fn parse(p: &mut P) -> Self { CollMap(Canon::parse(p)) } fn show(&self) -> String { self.0.show() } }
 impl<T: Canon> Canon for IterSeq<T> { fn parse(p: &mut P) -> Self { IterSeq(Canon::parse(p)) } fn show(&self) -> String { self.0.show() } }
 impl<K: Canon + Ord, V: Canon> Canon for IterMap<K, V> { fn parse(p: &mut P) -> Self { IterMap(Canon::parse(p)) } fn show(&self) -> String { self.0.show() } }
 
@@ -646,13 +718,14 @@ registry! {
     "Nested" => Nested; "Wide" => Wide; "Ext" => Ext; "Ext2" => Ext2; "Ext1" => Ext1; "ExtU" => ExtU;
     "InnerU" => InnerU; "InnerC" => InnerC; "InnerUS" => InnerUS; "InnerE" => InnerE;
     "Int" => Int; "IntF" => IntF; "Adj" => Adj; "Unt" => Unt; "UntF" => UntF;
-    "Hr" => Hr; "arr4(u8)" => Ip4; "SkipS" => SkipS; "SkipE" => SkipE; "opt(SkipS)" => Option<SkipS>; "seq(SkipS)" => Vec<SkipS>; "InnerB" => InnerB<'static>; "IntB" => IntB<'static>; "AdjB" => AdjB<'static>; "UntB" => UntB<'static>; "FlB" => FlB<'static>;
+    "Hr" => Hr; "arr4(u8)" => Ip4; "HandS" => HandS; "ExtK" => ExtK; "FlEK" => FlEK; "MapEK" => MapEK; "SkipS" => SkipS; "SkipE" => SkipE; "opt(SkipS)" => Option<SkipS>; "seq(SkipS)" => Vec<SkipS>; "InnerB" => InnerB<'static>; "IntB" => IntB<'static>; "AdjB" => AdjB<'static>; "UntB" => UntB<'static>; "FlB" => FlB<'static>;
     "Fl" => Fl; "Fl2" => Fl2; "FlM" => FlM; "FlU" => FlU; "FlF" => FlF; "FlFC" => FlFC; "FlK" => FlK; "FlMK" => FlMK; "FlMC" => FlMC;
     "opt(u8)" => Option<u8>; "opt(string)" => Option<String>; "opt(unit)" => Option<()>; "opt(opt(u8))" => Option<Option<u8>>, lossy;
     "opt(NTO)" => Option<NTO>, lossy; "opt(P2)" => Option<P2>; "opt(Ext)" => Option<Ext>; "opt(US)" => Option<US>;
     "seq(u8)" => Vec<u8>; "seq(opt(u16))" => Vec<Option<u16>>; "seq(P2)" => Vec<P2>; "seq(Ext)" => Vec<Ext>; "seq(seq(i8))" => Vec<Vec<i8>>;
     "seq(unit)" => Vec<()>; "seq(US)" => Vec<US>; "seq(Unt)" => Vec<Unt>; "seq(Int)" => Vec<Int>; "seq(Fl)" => Vec<Fl>; "seq(Adj)" => Vec<Adj>;
     "seq(string)" => Vec<String>; "seq(bytebuf)" => Vec<BytesBuf>; "seq(char)" => Vec<char>;
+    "cseq(u8)" => CollSeq<u8>; "cseq(P2)" => CollSeq<P2>; "cseq(cseq(u8))" => CollSeq<CollSeq<u8>>; "cmap(u8,bool)" => CollMap<u8, bool>; "cmap(string,cseq(u8))" => CollMap<String, CollSeq<u8>>;
     "iseq(u8)" => IterSeq<u8>; "iseq(P2)" => IterSeq<P2>; "iseq(iseq(u8))" => IterSeq<IterSeq<u8>>; "iseq(opt(string))" => IterSeq<Option<String>>;
     "tup(u8)" => (u8,); "tup(u8,string)" => (u8, String); "tup(u64,i64,f32,f64,char)" => (u64, i64, f32, f64, char);
     "tup(P2,Ext,unit)" => (P2, Ext, ()); "tup(strref,bytesref)" => (&'static str, BytesRef);
